@@ -49,15 +49,14 @@ Theorem C15_shade_range : forall (s : scene) (ov : list bool) (x y g : N),
 Proof. exact render_pixel_shade_range. Qed.
 Print Assumptions C15_shade_range.
 
-(* The palette tables are the register bytes: BGP read back from its table is the byte written; OBP0 / OBP1
-   agree with the byte written on the shades of colours 1-3 (colour 0 of an object is transparent). *)
+(* The palette tables are the register bytes: BGP, OBP0 and OBP1 read back from their tables are
+   the bytes written (OBP0 / OBP1 since "fix: OBP0 and OBP1 read back all eight bits"; entry 0 of an object palette
+   is never displayed, colour 0 of an object is transparent). *)
 Theorem C15_bgp_table : forall v : N, v < 256 -> pal_reg (write_bgp v) = Z.of_N v /\ pal_ok (write_bgp v).
 Proof. exact write_bgp_spec. Qed.
 Print Assumptions C15_bgp_table.
 
-Theorem C15_obp_table : forall (old : pal) (v : N), v < 256 -> c0 old < 4 ->
-  pal_ok (write_obp old v) /\
-  forall c, (1 <= c <= 3)%Z -> shade_of (pal_reg (write_obp old v)) c = shade_of (Z.of_N v) c.
+Theorem C15_obp_table : forall v : N, v < 256 -> pal_reg (write_obp v) = Z.of_N v /\ pal_ok (write_obp v).
 Proof. exact write_obp_spec. Qed.
 Print Assumptions C15_obp_table.
 
